@@ -69,19 +69,34 @@ def _chunk(args):
     fails = []
     nchecks = 0
     for i in range(n):
-        rules = gen_base(r)
-        base = tl.render_prog(rules)
+        alias = None
+        if i % 4 == 3:
+            # the program's own formula and the observer are two spellings of one formula (shared by telingo's cache)
+            pa = gen.alias_pair(r, ATOMS, depth=r.randint(0, 1))
+            if r.random() < 0.5:
+                pa = (pa[1], pa[0])
+            ta, tb = gen.alias_texts(pa)
+            own = r.choice(["r0 :- not &tel {{ {} }}.", ":- not &tel {{ {} }}, a.", "r0 :- not not &tel {{ {} }}.", ":- &tel {{ {} }}, not b."]).format(ta)
+            base = "#program always. { a; b }.\n#program " + r.choice(["initial", "always", "dynamic"]) + ". " + own
+            alias = tb
+        else:
+            rules = gen_base(r)
+            base = tl.render_prog(rules)
         ref = oracles.impl_models(base, H)
         if ref[0] == "err":
             if ref[1] not in ("RuntimeError", "ClingoError"):
                 fails.append({"kind": "exception", "text": base, "error": ref[1], "message": ref[2]})
             continue
-        kind = "del" if r.random() < 0.25 else "tel"
-        if kind == "tel":
+        kind = "del" if (alias is None and r.random() < 0.25) else "tel"
+        if alias is not None:
+            ftxt = alias
+        elif kind == "tel":
             f = gen_observer(r, rules); ftxt = tl.render_tel(f)
         else:
             f = gen.gen_dform(r, r.randint(1, 2), ATOMS); ftxt = tl.render_del(f)
         part = r.choice(["always", "always", "initial", "dynamic"])
+        if alias is not None:
+            part = base.split("#program ")[2].split(".")[0]      # same part: both atoms are grounded at the same steps
         obs = base + "\n#program {}. wobs :- not not &{} {{ {} }}.".format(part, kind, ftxt)
         c1 = base + "\n#program initial. :- &{} {{ {} }}.".format(kind, ftxt)
         c2 = base + "\n#program initial. :- not &{} {{ {} }}.".format(kind, ftxt)
@@ -95,6 +110,14 @@ def _chunk(args):
             nchecks += 1
             want = sorted(ref[1].get(h, []))
             got = project(ro[1].get(h, []), {"wobs"})
+            if len(set(want)) != len(want):
+                # the base program itself is listed with repeated answer sets (clasp's enumeration with free externals, see
+                # oracles.compare_with_spec): multiplicities of the base are then not meaningful; compare the sets
+                want, got = sorted(set(want)), sorted(set(got))
+                if got != want or sorted(set(r1[1].get(h, []) + r2[1].get(h, []))) != want:
+                    fails.append({"kind": "observer", "text": obs, "h": h, "n_base": len(want), "n_with_observer": len(got), "note": "compared as sets"})
+                    break
+                continue
             if got != want:
                 fails.append({"kind": "observer", "text": obs, "h": h, "n_base": len(want), "n_with_observer": len(got),
                               "missing": [list(m) for m in (collections.Counter(want) - collections.Counter(got))][:3],
@@ -118,7 +141,7 @@ def correspondence(ctx):
     dis = []
     for st, d in par.pmap(_corr_one, [(t,) for t in texts], ctx.jobs):
         for k in st:
-            tot[k] += st[k]
+            tot[k] = tot.get(k, 0) + st[k]
         tot["programs"] += 1
         dis += d
     tot["sample"] = {"program": texts[-1]}
